@@ -97,6 +97,16 @@ class Ctx:
                                            "memory-safety violation in the code under test" % profile, p)
             log(r.stderr[-2000:])
             raise ToolError("harness %s was killed (exit %d)" % (" ".join(map(str, args)), r.returncode))
+        if r.returncode == 97:
+            # the harness's watchdog: ONE call into the code under test did not return within 600 s. Termination is
+            # what C03 states; every other decoder / encoder property presupposes it ("returns ...").
+            d = "%s/replays/%s" % (VERIF, self.prop)
+            os.makedirs(d, exist_ok=True)
+            p = "%s/%d-hang.log" % (d, int(time.time()))
+            with open(p, "w") as f:
+                f.write("command: %s %s\nexit: %s\n--- stderr\n%s\n" % (b, " ".join(map(str, args)), r.returncode,
+                                                                        r.stderr[-6000:]))
+            raise Violation(self.prop, "a call into the code under test did not return within 600 s (%s build)" % profile, p)
         if r.returncode != 0:
             log(r.stdout[-2000:], r.stderr[-2000:])
             raise ToolError("harness %s exited %d" % (" ".join(map(str, args)), r.returncode))
